@@ -22,9 +22,12 @@ PROP = 'C05'
 HERE = os.path.dirname(os.path.dirname(os.path.abspath(__file__)))
 
 META = {
-    'extractors': [],
+    'extractors': ['pymain'],
     'technique': ('Lean 4 proof (refinement invariant OrmValInv preserved by every library operation, induction over '
-                  'histories) + differential correspondence of the hand-written model with main.py on generated histories '
+                  'histories) + TRANSLATION of the instance methods expire / sync / _SO_selectInit / _SO_loadValue / '
+                  '_SO_getValue (and syncUpdate, _SO_setValue, set) from main.py into a deep embedding on every run, '
+                  'with proofs by symbolic execution that they equal the hand model for all states '
+                  '+ differential correspondence of the hand-written model with main.py on generated histories '
                   '+ raw-SELECT oracle after every step'),
     'level_text': ('Theorems C05_inv_reachable / C05_read_eq_db: in every state reachable by any history of library '
                    'operations (create, get, select refresh, read, setattr, set, syncUpdate, sync, expire, expireAll, '
@@ -32,21 +35,35 @@ META = {
                    'stored value (the pending one for lazy-dirty objects), for eager, lazy and cacheValues=False classes; '
                    'C05_oob_then_sync / C05_oob_then_expire: from ANY state, sync()/expire() make reads return the '
                    'stored value or raise.  The model is hand-written from main.py and compared with the real code on '
-                   'every run (outcomes, statements, white-box instance state, raw rows after every step).'),
+                   'every run (outcomes, statements, white-box instance state, raw rows after every step).  '
+                   'C05_translated_{expire,sync,loadValue,getValue}_eq_model / C05_translated_selectInit_eq_loadRow: the '
+                   'bodies of these SQLObject methods, translated from the AST on this run (vlib/extractors/pymain.py -> '
+                   'Extracted/PyMain.lean, semantics Model/PyMain.lean), run from the image of ANY model state with ANY '
+                   'insertion order of the pending dict, yield exactly what opExpire / opSync / loadRow / opRead yield.'),
     'level_note': ('Assumptions made explicit in the theorems: the library hands out at most one live instance per row '
                    '(C04; the history says when get/select built a new instance) and the application does not write '
                    'through destroyed instances.  Trusted: Lean kernel, the harness, SQLite as the row store; the '
-                   'sampling correspondence of the model.'),
+                   'sampling correspondence of the model; for the translated methods: the translator and the reference '
+                   'semantics of the embedding (Model/PyMain.lean), and the interface it is given: _SO_selectOne / '
+                   '_SO_update / cache.expire behave like the hand model\'s database functions, validators are '
+                   'uninterpreted functions (from_python raises Invalid on a rejected value), signals are ignored.'),
     'rule': ('case = one history (connection cache on/off, read mode A/B, ≤ 30 ops over 8 classes eager/lazy/uncached/'
-             'lazy+uncached + four classes with a ForeignKey to the eager one (cascade=null eager/lazy/uncached, cascade=True), ids 1..5); distinct = distinct op sequences; non-trivial = history contains a write followed by '
+             'lazy+uncached + four classes with a ForeignKey to the eager one (cascade=null eager/lazy/uncached, cascade=True) + two '
+             'string-keyed classes; JSONCol columns (stored text != shown value) on eager, lazy and string-keyed classes; ids 1..5 given in '
+             'the canonical or the other Python type; library bulk deletes (deleteBy/deleteMany) and key re-use); distinct = distinct op sequences; non-trivial = history contains a write followed by '
              'expire/sync/select/destroy or an injected failure'),
     'trusted': ['SQLite in-memory engine as the row store (raw SELECT through a second cursor is the oracle)',
                 'harness bookkeeping of which row a held instance stands for, and of pending lazy assignments'],
-    'modelled': ['cache identity (which instance get/select returns) is an input of the model: the history says fetch '
+    'modelled': ['column codecs are abstract in the model (Cfg.enc/dec arbitrary functions; the driver instantiates the JSONCol one as a tag +1000 '
+                 'so that stored and shown forms are disjoint); ids are naturals in the model, the string / int forms are canonicalised by the harness',
+                 'cache identity (which instance get/select returns) is an input of the model: the history says fetch '
                  '(new instance) or refresh (held instance); proved separately under C04',
                  'event listeners, joins, foreign keys, column kinds other than IntCol, per-connection instances, threads',
                  'lazyUpdate together with cacheValues=False shows the stored value, not the pending one (noted, excluded from the read theorem by hypothesis)'],
-    'assumptions': ['at most one live held instance per (class, id) (C04 identity map); when the real code hands out a second one '
+    'assumptions': ['translated-method theorems: the object has _SO_val_ attributes only for its columns, pending keys are '
+                    'columns, the class has at least one column (two for _SO_getValue); no signal listener is connected; '
+                    'get(), _init, destroySelf, expireAll and the create path are still hand-modelled + correspondence',
+                    'at most one live held instance per (class, id) (C04 identity map); when the real code hands out a second one '
                     '(open C04 finding: expire() evicts the instance) the harness drops the older handle',
                     'no writes through destroyed instances (id reuse by SQLite would alias another row)',
                     'after sync() itself raised NotFound the instance is dead: its still-cached old values are not checked'],
